@@ -208,8 +208,103 @@ def t_injectible_self_application(rng):
   return prog
 
 
+def t_unary_minus(rng):
+  """unary minus applied to parenthesised sums / differences / products, in heads, assignments and comparisons."""
+  prog = Program()
+  fact_pred(prog, rng, 'T', 2, rng.randint(2, 5), (0, 1, 2, 3, 5))
+  x, y = V('x'), V('y')
+  ops = ['+', '-', '*']
+  o1, o2, o3 = rng.choice(ops), rng.choice(ops), rng.choice(['+', '-'])
+  inner = OP(o1, x, y)
+  derived(prog, 'NegHead', ['col0', 'col1'], ['int', 'int'],
+          [rule('NegHead', [['col0', x], ['col1', OP('-', inner)]], atom('T', x, y))])
+  derived(prog, 'NegAssign', ['col0', 'col1'], ['int', 'int'],
+          [rule('NegAssign', [['col0', x], ['col1', V('v')]], AND(atom('T', x, y), {'eq': [V('v'), OP(o3, L(10), OP('-', OP(o2, x, y)))]}))])
+  derived(prog, 'NegCmp', ['col0'], ['int'],
+          [rule('NegCmp', [['col0', x]], AND(atom('T', x, y), {'test': OP('<', OP('-', OP('+', x, y)), OP('-', L(rng.choice([1, 3, 4]))))}))])
+  derived(prog, 'NegNested', ['col0', 'col1'], ['int', 'int'],
+          [rule('NegNested', [['col0', x], ['col1', OP('*', OP('-', OP('+', x, L(1))), OP('-', OP('-', y, L(2))))]], atom('T', x, y))])
+  prog.features.add('tpl:unary-minus')
+  return prog
+
+
+def t_pure_distinct(rng):
+  """a distinct predicate without aggregated columns over a body with duplicates, read by aggregating callers."""
+  prog = Program()
+  fact_pred(prog, rng, 'E', 2, rng.randint(3, 7), (1, 2, 3))
+  fact_pred(prog, rng, 'A', 1, rng.randint(1, 3), (1, 2, 3))
+  x, y, z = V('x'), V('y'), V('z')
+  derived(prog, 'Src', ['col0'], ['int'], [rule('Src', [['col0', x]], atom('E', x, y), distinct=True)], kind='distinct')
+  op = rng.choice(['Sum', 'Count', 'List'])
+  val = L(1) if op == 'Sum' else x
+  ty = 'int' if op != 'List' else ('list', 'int')
+  derived(prog, 'NumSrc', ['logica_value'], [ty],
+          [rule('NumSrc', [['logica_value', {'aggop': op, 'e': val}]], atom('Src', x), distinct=True)], kind='distinct')
+  derived(prog, 'SumSrc', ['logica_value'], ['int'],
+          [rule('SumSrc', [['logica_value', {'aggop': 'Sum', 'e': x}]], atom('Src', x), distinct=True)], kind='distinct')
+  derived(prog, 'Deg', ['col0', 'n'], ['int', 'int'],
+          [rule('Deg', [['col0', x], ['n', {'aggop': rng.choice(['Sum', 'Count']), 'e': y}]], AND(atom('Src', x), atom('E', x, y)), distinct=True)],
+          kind='distinct')
+  derived(prog, 'Sub', ['col0', 'col1'], ['int', 'int'],
+          [rule('Sub', [['col0', x], ['col1', V('s')]],
+                AND(atom('A', x), {'eq': [V('s'), agg('Sum', L(1), AND(atom('Src', z), {'test': OP('>=', z, x)}))]}))])
+  derived(prog, 'Plain', ['col0'], ['int'], [rule('Plain', [['col0', x]], AND(atom('Src', x), atom('A', x)))])
+  prog.features.add('tpl:pure-distinct')
+  return prog
+
+
+def t_mixed_head(rng):
+  """heads mixing positional and named arguments, with and without aggregation, and their consumers."""
+  prog = Program()
+  fact_pred(prog, rng, 'T', 3, rng.randint(2, 6), (1, 2, 3))
+  x, k, v, t = V('x'), V('k'), V('v'), V('t')
+  op = rng.choice(['Sum', 'Max', 'Min', 'Count'])
+  derived(prog, 'Q', ['col0', 'kind', 'total'], ['int', 'int', 'int'],
+          [rule('Q', [['col0', x], ['kind', k], ['total', {'aggop': op, 'e': v}]], atom('T', x, k, v), distinct=True)], kind='distinct')
+  derived(prog, 'R', ['col0', 'kind'], ['int', 'int'], [rule('R', [['col0', x], ['kind', OP('+', k, L(1))]], atom('T', x, k, v))])
+  derived(prog, 'S', ['col0', 'col1'], ['int', 'int'],
+          [rule('S', [['col0', x], ['col1', t]], AND({'atom': 'Q', 'args': [['col0', x], ['kind', k], ['total', t]]},
+                                                    {'atom': 'R', 'args': [['col0', x], ['kind', V('k2')]]}, {'test': OP('>=', t, L(1))}))])
+  derived(prog, 'D', ['col0', 'kind'], ['int', 'int'],
+          [rule('D', [['col0', x], ['kind', k]], atom('T', x, k, v), distinct=True)], kind='distinct')
+  prog.features.add('tpl:mixed-head')
+  return prog
+
+
+def t_argmin_k(rng):
+  """ArgMinK / ArgMaxK (K = 2, 3) over groups of at least K + 2 rows without value ties, in a random arrival
+  order, as predicate-level aggregation and as aggregating expression."""
+  prog = Program()
+  p = Pred('T', ['col0', 'col1', 'col2'], ['int', 'int', 'int'], 'facts')
+  rows = []
+  for g in (1, 2):
+    n = rng.randint(4, 6)
+    vals = rng.sample(range(1, 30), n)
+    for i, v in enumerate(vals):
+      rows.append((g, 10 * g + i, v))
+  rng.shuffle(rows)
+  for r in rows:
+    prog.rules.append({'head': 'T', 'args': [[c, L(v)] for c, v in zip(p.cols, r)], 'distinct': False, 'body': None})
+  p.rows = rows
+  prog.preds.append(p)
+  fact_pred(prog, rng, 'Gs', 1, 2, (1, 2))
+  g, n, v = V('g'), V('n'), V('v')
+  k1, k2 = rng.choice([2, 3]), rng.choice([2, 3])
+  prog.extra_text += ['ArgMin%d(x) = ArgMinK(x, %d);' % (k, k) for k in sorted({k1, k2})] + ['ArgMax%d(x) = ArgMaxK(x, %d);' % (k, k) for k in sorted({k1, k2})]
+  lt = ('list', 'int')
+  derived(prog, 'LowP', ['col0', 'low'], ['int', lt],
+          [rule('LowP', [['col0', g], ['low', {'aggop': 'ArgMinK:%d' % k1, 'e': OP('->', n, v)}]], atom('T', g, n, v), distinct=True)], kind='distinct')
+  derived(prog, 'HighP', ['col0', 'high'], ['int', lt],
+          [rule('HighP', [['col0', g], ['high', {'aggop': 'ArgMaxK:%d' % k2, 'e': OP('->', n, v)}]], atom('T', g, n, v), distinct=True)], kind='distinct')
+  derived(prog, 'LowE', ['col0', 'col1'], ['int', lt],
+          [rule('LowE', [['col0', g], ['col1', V('l')]],
+                AND(atom('Gs', g), {'eq': [V('l'), agg('ArgMinK:%d' % k2, OP('->', n, v), atom('T', g, n, v))]}))])
+  prog.features.add('tpl:argmin-k')
+  return prog
+
+
 TEMPLATES = [t_injectible_self_application, t_sibling_combines, t_division, t_outer_only_value, t_multivalued_calls, t_nested_disjunction,
-             t_no_table_rule, t_record_if]
+             t_no_table_rule, t_record_if, t_unary_minus, t_pure_distinct, t_mixed_head, t_argmin_k]
 
 
 def build(rng, mask, kwargs):
